@@ -139,7 +139,7 @@ type wgState struct {
 
 // maxTasks bounds the task table (it is never reallocated: parked tasks keep
 // pointers into it). Goroutines started beyond it run outside the scheduler.
-const maxTasks = 64
+const maxTasks = 1024
 
 // ctab is a string -> counter table built on slices only. Go maps cannot be
 // used for state that simulated tasks touch: the runtime's map functions carry
